@@ -823,7 +823,12 @@ fn run_once(cx: &Cx, rep: &mut Report, su: &Setup, hist: &Hist, check: bool) -> 
             let samp = CkksShareSampler { slots: n / 2 };
             let shares = c2s_stage(cx, rep, su, &parties, ctl, &samp, &senc, hist, check, &fp_c64, &mut out, "cipher_to_shares:level_down", 14);
             let have: Option<Vec<Vec<C64>>> = shares.as_ref().and_then(|v| v.iter().cloned().collect());
-            if let (true, Some(sh)) = (check, have.as_ref()) {
+            // capacity precondition (CKKS has no modular wrap-around protection): party 0's share is m - sum of the other parties'
+            // random shares (slots in the unit square), its coefficients are below (max|m| + 1.5 (n-1) + 1) * scale and must stay
+            // below half the modulus of the (smaller) level the ciphertext now lives on
+            let cap_ok = (vmax(&su.z1) + 1.5 * (npf - 1.0) + 1.0) * ctl.scale() * 2.0 < level_qs(su, ctl.parms_id()).iter().map(|&q| q as f64).product::<f64>() * 0.9;
+            if check && have.is_some() && !cap_ok { rep.out_of_precondition += 1; }
+            if let (true, Some(sh), true) = (check, have.as_ref(), cap_ok) {
                 let sum: Vec<C64> = (0..n / 2).map(|j| sh.iter().map(|s| s[j]).sum()).collect();
                 let tol = ckks_tol(su, ctl.parms_id(), b_low + ERR * npf + npf, ctl.scale(), npf + 2.0) + npf * ckks_fp_tolerance(n, su.data_qs.len(), 2.0, ctl.scale());
                 let err = slot_err(&sum, &su.z1);
